@@ -183,6 +183,7 @@ def state_discipline(ctx: Ctx, cg: CallGraph):
 def renderings(g1):
     out = {}
     for name, mode, pfx, arg in (("prefix xtce", "prefix", "xtce", "xtce"), ("prefix foo", "prefix", "foo", "foo"),
+                                 ("prefix omg.xtce-1.2", "prefix", "omg.xtce-1.2", "omg.xtce-1.2"),
                                  ("default namespace", "default", None, None), ("no namespace", "none", None, None)):
         r = X.respell(g1, mode, prefix=pfx or "xtce")
         out[name] = (r, arg)
